@@ -302,6 +302,10 @@ func driveTiles(t *Tracer, r Rng, n int) {
 	for i := 0; i < n; {
 		E := r.In(0, 35)
 		O := r.offset()
+		std := r.Chance(0.2) // the library's own constants: 1 m at zoom 25, key 0 at -2^24 m (or at the ground)
+		if std {
+			E, O = 25, r.Pick(1<<24, 1<<24, 0, 1<<25)
+		}
 		if r.Chance(0.5) {
 			// tiles
 			ovz := r.In(0, 28)
@@ -324,6 +328,12 @@ func driveTiles(t *Tracer, r Rng, n int) {
 					x.H = r.In(0, 35)
 					x.X, x.Y = r.patternedIndex(x.H), r.patternedIndex(x.H)
 					x.V = r.In(maxI(0, E-12), minI(35, E+3))
+					if std || r.Chance(0.3) { // any key zoom, down to the root tile
+						x.V = r.In(0, 35)
+						if r.Chance(0.4) {
+							ovz = x.V
+						}
+					}
 					nk := int64(1) << uint(minI(x.V, 28))
 					x.Z = r.edgeIn(0, nk-1)
 					if r.Chance(0.5) {
@@ -340,6 +350,11 @@ func driveTiles(t *Tracer, r Rng, n int) {
 					break
 				}
 				ts = append(ts, x)
+			}
+			for _, x := range ts { // (the output zoom may have been tied to a later tile's key zoom)
+				if !kzRepresentable(x.Z, x.V, ovz, E, O) {
+					ok = false
+				}
 			}
 			if !ok {
 				continue
